@@ -5,19 +5,20 @@ class C31(Spec):
     prop = "C31"
     drv = "drv_c31"
     harness = "h_c31"
-    required_theorems = ("C31.core_iff_touches", "C31.exec_ok_not_blocked", "C31.pool_rejects_always_partial",
-                         "C31.spelling_invariant", "C31.core_spelling_invariant", "C31.pool_full_false",
+    required_theorems = ("C31.core_iff_touches", "C31.exec_ok_not_blocked", "C31.pool_rejects_always",
+                         "C31.spelling_invariant", "C31.core_spelling_invariant", "C31.old_pool_admits_proxied_blocked",
                          "C31.producer_skips_blocked", "C31.delay_rejects_always")
-    partial = ("C31.pool_rejects_always_partial",)
-    refuted = ("C31.pool_full_false",)
     quick_timeout = 1200
     level_text = ("Lean theorems about the model of the account blacklist: the four-position check "
                   "(checkTxBlockedAccountCore + checkEVMTxBlockedTarget) reports a hit exactly when sender, recipient, real "
                   "recipient, EVM contract address or 20-byte EVM target denotes a listed 20-byte account, for every blacklist, "
                   "transaction and spelling (the verdict depends on texts only through their parse); at an active height every "
                   "receipt other than ExecErr - single transaction, every group member, the inner transaction of a proxied one - "
-                  "belongs to a transaction touching no listed account; the producer and the pool (single, group, delayed) take "
-                  "no such transaction at any height; for proxied submissions the pool statement is refuted (known finding). "
+                  "belongs to a transaction touching no listed account; the producer takes no such transaction; the pool, at "
+                  "any height, accepts no submission (single, group member, delayed) touching a listed account nor a proxy-exec "
+                  "submission (Ethereum sign id, To = exec.proxyExecAddress, real executor evm, payload Para decodes as a "
+                  "transaction) whose inner transaction does - full after fix 1445781 in /repo (found by this check; the old pool "
+                  "is kept as a regression witness). "
                   "Tie: types.CheckTxBlockedAccount/Immediate on every position x 9 spellings x blacklist entries in the same "
                   "spellings x before/at/after activation on a main-chain and a para-chain configuration; on a real testnode "
                   "EventExecTxList receipts, consensus AddTxsToBlock, mempool EventTx replies, EventAddDelayTx and "
